@@ -39,12 +39,15 @@ func (p *Prog) onlyReachedFrom(f *ssa.Function, roots []*ssa.Function, depth int
 			return true
 		}
 	}
-	if depth > 6 || p.addressTaken(f) {
+	if depth > 6 {
 		return false
 	}
 	if f.Parent() != nil {
-		// closure invoked directly in its parent
+		// a closure exists only once its parent ran
 		return p.onlyReachedFrom(f.Parent(), roots, depth+1)
+	}
+	if p.addressTaken(f) {
+		return false
 	}
 	callers := p.Callers(f)
 	if len(callers) == 0 {
